@@ -231,6 +231,9 @@ type tcase struct {
 	ID  int    `json:"id"`
 	T   string `json:"t"` // mock | ws | wsm | grpc | grpci
 	Ops []op   `json:"ops"`
+	// Buf, when set, is the capacity of the mock transport's request channel (default 512:
+	// Send never blocks). Small capacities are used by scripts that fill the channel exactly.
+	Buf *int `json:"buf"`
 }
 
 type obs struct {
@@ -547,7 +550,7 @@ func getTransport(name string) (*transport, error) {
 
 // ---------------------------------------------------------------- case execution
 
-const opTimeout = 8 * time.Second
+const opTimeout = 4 * time.Second
 
 func runCase(tc tcase) (res result) {
 	res = result{ID: tc.ID, C: []obs{}, H: []obs{}}
@@ -568,7 +571,11 @@ func runCase(tc tcase) (res result) {
 	var cs freighter.ClientStream[Req, Res]
 	var err error
 	if tc.T == "mock" {
-		srv, cl := mock.NewStreamPair[Req, Res](512)
+		reqBuf := 512
+		if tc.Buf != nil && *tc.Buf >= 0 {
+			reqBuf = *tc.Buf
+		}
+		srv, cl := mock.NewStreamPair[Req, Res](reqBuf, 512)
 		srv.BindHandler(handler)
 		cs, err = cl.Stream(ctx, "")
 	} else {
